@@ -27,13 +27,17 @@ BIDS = ["1000", "1001", "0001", "0999", "1999", "22000", "0033", "9998", "1", "1
 
 
 # optional groups that start with another optional group ("[[") and sibling groups
-SPECIAL_PATTERNS = ["v[[MAJOR.]MINOR.]PATCH", "MAJOR.MINOR[[.PATCH]-TAG]", "vYYYY.BUILD[[-TAG].NUM]", "MAJOR[.MINOR][-TAG]", "vMAJOR[[.MINOR].PATCH]"]
+SPECIAL_PATTERNS = ["v[[MAJOR.]MINOR.]PATCH", "MAJOR.MINOR[[.PATCH]-TAG]", "vYYYY.BUILD[[-TAG].NUM]", "MAJOR[.MINOR][-TAG]", "vMAJOR[[.MINOR].PATCH]",
+                    # the same part twice (the second occurrence gets a suffixed group name)
+                    "vYYYY0M.BUILD[-TAG] (c) YYYY", "YYYY.BUILD[-TAG][+bBUILD]", "apiMAJOR/vMAJOR.MINOR.PATCH",
+                    # a week part alone in an optional group (week 0 is a value, not a zero to be omitted); literal text closing an optional group
+                    "vYYYY[.WW]", "YYYY[.UU[.INC0]]", "YYYY[wWW][-TAG]", "MAJOR.MINOR.PATCH[-TAG[.NUM]-x]", "vMAJOR.MINOR[.PATCH[-TAG]+local]"]
 
 
 def gen_pattern(r, allow_bad_week=False):
     """Returns (raw_pattern, info). info['wf'] is True when the pattern is in the well-formed class
     for which round-trip is claimed (parts separated so that tokenisation is unambiguous)."""
-    if r.random() < 0.04:
+    if r.random() < 0.08:
         pat = r.choice(SPECIAL_PATTERNS)
         return pat, dict(wf=True, bridge=False, cal="y" if "YYYY" in pat else None, has_num=True, tag="", prefix="", suffix="", sep=".")
     parts = []
